@@ -25,6 +25,9 @@ pub fn install_panic_hook() {
         } else {
             "<non-string panic>".into()
         };
+        if !crate::interpose::sim_running() {
+            eprintln!("HARNESS-PANIC: {} @ {}", msg, loc);
+        }
         if let Ok(mut g) = LAST_PANIC.lock() {
             *g = Some(format!("{} @ {}", msg, loc));
         }
@@ -201,7 +204,7 @@ pub fn build_writer(world: &World, o: &Opts) -> MinidumpWriter {
                     size: u.size as usize,
                     system_mapping_info: minidump_writer::maps_reader::SystemMappingInfo {
                         start_address: u.start as usize,
-                        end_address: (u.start + u.size) as usize,
+                        end_address: u.start.saturating_add(u.size) as usize,
                     },
                     offset: u.offset as usize,
                     permissions: perms_from_str(&u.perms),
